@@ -411,8 +411,12 @@ class Explorer(object):
             val = _tolower(x) if callee_name(e) == 'tolower' else _toupper(x)
         else:
             return None
+        return self.finish(e0, e, val)
+
+    def finish(self, e0, e, val):
         # conversions: every node carries the type it is converted to implicitly ('ty') and, when that differs, its own type
         # ('ty0'); an explicit cast converts to its own type first (`(unsigned char)(c - 'A')` used as an int wraps at 8 bits)
+        k = e.get('k')
         c = e0
         chain = []
         while c.get('k') == 'cast':
@@ -950,6 +954,33 @@ def pair_relation(ex, seg, p, q):
                     return False
         return None if unknown else True
     return f
+
+
+def pair_value(ex, st, e0, p, q, loadpos=None):
+    """f(x, y) = value of e0 with bytes x at p and y at q; sub-expressions that depend on one position only are tabulated."""
+    d = ex.deps(e0, st, loadpos)
+    if None not in d:
+        if d <= {p}:
+            tab = [ex.ev(e0, st, {p: v}, loadpos) for v in range(256)]
+            return lambda x, y: tab[x]
+        if d <= {q}:
+            tab = [ex.ev(e0, st, {q: v}, loadpos) for v in range(256)]
+            return lambda x, y: tab[y]
+    e = strip_casts(e0)
+    ARITH = {'+': lambda l, r: l + r, '-': lambda l, r: l - r, '|': lambda l, r: l | r, '&': lambda l, r: l & r, '^': lambda l, r: l ^ r,
+             '*': lambda l, r: l * r, '==': lambda l, r: int(l == r), '!=': lambda l, r: int(l != r), '<': lambda l, r: int(l < r),
+             '<=': lambda l, r: int(l <= r), '>': lambda l, r: int(l > r), '>=': lambda l, r: int(l >= r)}
+    if e.get('k') == 'bin' and e['op'] in ARITH and const_val(e0) is None:
+        fl, fr = pair_value(ex, st, e['l'], p, q, loadpos), pair_value(ex, st, e['r'], p, q, loadpos)
+        op = ARITH[e['op']]
+
+        def f(x, y):
+            l, r = fl(x, y), fr(x, y)
+            if l is None or r is None:
+                return None
+            return ex.finish(e0, e, op(l, r))
+        return f
+    return lambda x, y: ex.ev(e0, st, {p: x, q: y}, loadpos)
 
 
 def loop_segments(ex, head=None):
